@@ -65,7 +65,7 @@ def gen_cases(ck):
     #     call lists x <= 2 cut points, polled after every event; all poll masks for a sample
     pairs = [(a, b) for a in MENU for b in MENU]
     rng.shuffle(pairs)
-    n_pairs = 20 if quick else 40
+    n_pairs = 16 if quick else 40
     for calls_a, calls_b in pairs[:n_pairs]:
         tags = sg.Tags()
         fa, fb = frames_for(rng, tags, 0, calls_a), frames_for(rng, tags, 1, calls_b)
@@ -85,9 +85,24 @@ def gen_cases(ck):
             for mask in masks:
                 add(sg.with_polls(m, mask), [0, 1], "two_conn_all_poll_masks",
                     {"calls": [calls_a, calls_b], "cuts": [ca, cb], "mask": mask})
+    # (s) complete calls of two (three) connections become available between the same two polls of the server,
+    #     with every previous winner (both round-robin orders): none may be consumed and thrown away
+    for nconn in (2, 3):
+        for last in range(nconn):
+            for calls_each in (1, 2):
+                for ow in (False, True):
+                    tags = sg.Tags()
+                    warm = [["n", c] for c in range(nconn)] + [["p"]]
+                    warm += [["a", last, sg.wire([sg.call("Echo", last, tags.next(), v=1)]).hex()], ["p"]]
+                    arr = [["a", c, sg.wire([sg.call(rng.choice(["Echo", "Count", "Fail"]), c, tags.next(), v=c,
+                                                     oneway=ow and j == 0) for j in range(calls_each)]).hex()]
+                           for c in range(nconn)]
+                    for order in (arr, arr[::-1]):
+                        add(warm + order + [["p"], ["p"]], list(range(nconn)), "calls_same_poll",
+                            {"conns": nconn, "last_winner": last})
     # (c) seeded random: up to 4 connections x up to 5 calls, any cuts, any merge, any polls
     kinds = ["Echo", "Echo", "Fail", "Count", "Ping", "Total", "Sub"]
-    for i in range(2500 if quick else 12000):
+    for i in range(1800 if quick else 12000):
         nconn = rng.randrange(1, 5)
         tags = sg.Tags()
         seqs, hyp = [], []
